@@ -7,12 +7,20 @@ stalled paths, with and without `Connection: close` in several spellings, oversi
 malformed requests, a truncated last request) cut into chunks — one composed write per chunk,
 back to back or spaced by timers in virtual time — and reads whatever arrives. Families:
 
-  cut1     one short pipeline, one scenario per single cut position (exhaustive)
-  cut2     short pipeline, every pair of cut positions in a window (exhaustive, thorough tier)
-  rand     random pipelines, random cuts, successive clients, lossy / NAT / small-MTU networks
-  stop     `w0.stop` at an arbitrary event boundary or time, then a connect that must be refused
-           and a new listener on the same port
-  reuse    first client leaves unread pipelined bytes behind a `Connection: close`
+  cut1 (x) one short pipeline, one scenario per single cut position (exhaustive). The cut client
+           never closes when the server itself ends the connection (a follower is then accepted
+           behind it), so that "every response arrived / end-of-file seen" is demanded at every
+           cut; streams that leave the connection open or parked come in two variants per cut:
+           client never closing (no follower) and client closing at 1.5 s (+ follower)
+  cut2 (y) short pipelines, every pair of cut positions in a window around the first request
+           boundary (exhaustive; all five streams, window +-4 quick / +-14 thorough), client never closing
+  rand (r) random pipelines, random cuts or cuts exactly at the request boundaries (sequential
+           keep-alive use), successive clients, lossy / NAT / small-MTU networks
+  stop (s) `w0.stop` at an arbitrary event boundary or time — with malformed requests, bad ranges,
+           stalled paths, a truncated last request, lossy networks and a second (pipelining)
+           client around — then a connect that must be refused and a new listener on the same port
+  reuse (u) first client leaves unread pipelined bytes behind a `Connection: close`; one in ten
+           with the stop() tail of the stop family
 """
 import random
 import net_gen
@@ -36,7 +44,7 @@ CLOSE_SPELL = [("Connection: ", "close"), ("connection:", "close"), ("Connection
 KEEP_SPELL = [("Connection: ", "keep-alive"), ("Connection: ", "closed"), ("Connection: ", "clos")]
 
 
-def rand_request(rng, allow_stall=False, allow_bad=True, close_p=0.15):
+def rand_request(rng, allow_stall=False, allow_bad=True, close_p=0.15, bad_p=0.06):
     """-> (bytes, kind) kind in ok|close|stall|bad|partial"""
     x = rng.random()
     hdrs = []
@@ -49,14 +57,14 @@ def rand_request(rng, allow_stall=False, allow_bad=True, close_p=0.15):
     elif rng.random() < 0.15:
         hdrs.append(rng.choice(KEEP_SPELL))
     rng.shuffle(hdrs)
-    if allow_bad and x < 0.06:
+    if allow_bad and x < bad_p:
         b = rng.choice([b"GET/HTTP/1.1\r\n\r\n", b"GET /c\r\n\r\n", b"\r\n\r\n", b"GARBAGE\r\n\r\n",
                         b"GET /c HTTP/1.1\r\nbadline\r\n\r\n", b"GET /h HTTP/1.1\r\nno colon here\r\nHost: x\r\n\r\n",
                         b"GET /c HTTP/1.1\r\nRange: bytes=x-y\r\n\r\n", b"GET /c HTTP/1.1\r\nrange: bytes=7-\r\n\r\n",
                         b"GET /c HTTP/1.1\r\nRange: bytes=9-3\r\n\r\n", b"GET /big HTTP/1.1\r\nRange: bytes=0-9223372036854775807\r\n\r\n",
                         b"GET /c HTTP/1.1\r\nRange: bytes=5--9223372036854775808\r\n\r\n"])
         return b, "bad"
-    if allow_stall and x < 0.12:
+    if allow_stall and x < (bad_p if allow_bad else 0.06) + 0.06:
         return req("/s", headers=hdrs), "stall"
     if x < 0.30:
         p = rng.choice(["/nope", "/", "/c/x", "//h", "/H", "/s/..", "/c/"])
@@ -72,11 +80,11 @@ def rand_request(rng, allow_stall=False, allow_bad=True, close_p=0.15):
     return req(p, method=m, headers=hdrs), kind
 
 
-def pipeline(rng, depth=None, allow_stall=False, allow_bad=True, close_p=0.15, partial_p=0.08):
+def pipeline(rng, depth=None, allow_stall=False, allow_bad=True, close_p=0.15, partial_p=0.08, bad_p=0.06):
     depth = depth or rng.choice([1, 1, 2, 2, 3, 4, 5])
     out = b""; kinds = []
     for _ in range(depth):
-        b, k = rand_request(rng, allow_stall, allow_bad, close_p)
+        b, k = rand_request(rng, allow_stall, allow_bad, close_p, bad_p)
         out += b; kinds.append(k)
     if rng.random() < partial_p:
         b, _ = rand_request(rng, False, False, 0.0)
@@ -98,6 +106,17 @@ def rand_cuts(rng, n):
     if x < 0.3: return list(range(1, n))[:rng.choice([3, 8, 40])] if n < 60 else [rng.randrange(1, n)]
     k = rng.choice([1, 1, 2, 3, 5, 9])
     return [rng.randrange(1, n) for _ in range(k)]
+
+
+def boundary_cuts(stream):
+    """cuts exactly at the request boundaries: plain sequential use of a connection"""
+    out = []; p = stream.find(b"\r\n\r\n")
+    while p >= 0:
+        out.append(p + 4); p = stream.find(b"\r\n\r\n", p + 4)
+    return out
+
+
+GAPS = [0, 1000, 500000, 3000000, 20000000, 150000000]
 
 
 class Sc:
@@ -126,7 +145,7 @@ class Sc:
             P.do("top", "w0.stall /h")                                     # a handler wins over a stall entry
         self.t = 0
 
-    def client(self, stream, cuts, start_ctx=None, at=None, cap=None, spaced=None, close_after=None, node=None):
+    def client(self, stream, cuts, start_ctx=None, at=None, cap=None, spaced=None, close_after=None, node=None, gaps=None, closer=None):
         """a client connecting in context start_ctx (or at time `at`), sending `stream` cut at `cuts`"""
         rng = self.rng; P = self.P
         nd = node or rng.choice(self.others)
@@ -143,7 +162,7 @@ class Sc:
         for i, ch in enumerate(chunks):
             if i > 0 and spaced and rng.random() < 0.8:
                 k = P.nt; P.nt += 1; ht = P.h()
-                P.do(c, "t%d.expires_after %d" % (k, rng.choice([0, 1000, 500000, 3000000, 20000000, 150000000])))
+                P.do(c, "t%d.expires_after %d" % (k, rng.choice(gaps or GAPS)))
                 P.do(c, "t%d.wait h%d" % (k, ht)); c = "h%d" % ht
             hs = P.h()
             P.do(c, "%s.send h%d data=%s" % (s, hs, hx(ch)))
@@ -151,7 +170,8 @@ class Sc:
         if close_after is not None:
             k = P.nt; P.nt += 1; ht = P.h()
             P.do(c, "t%d.expires_after %d" % (k, close_after)); P.do(c, "t%d.wait h%d" % (k, ht))
-            P.do("h%d" % ht, "%s.%s" % (s, rng.choice(["close", "close", "destroy"])))
+            how = rng.choice(["close", "close", "destroy"])
+            P.do("h%d" % ht, "%s.%s" % (s, closer or how))
         return s, c
 
     def text(self):
@@ -180,36 +200,42 @@ def sc_rand(rng, sid):
             ca = rng.choice([100000000, 400000000, 2000000000])     # let the next client in
         elif rng.random() < 0.1:
             ca = rng.choice([0, 1000000, 30000000])                 # early close by the client
-        S.client(stream, rand_cuts(rng, len(stream)), at=t, close_after=ca)
+        if len(kinds) > 1 and rng.random() < 0.2:
+            # one write per request, the next one only once the connection has gone idle
+            S.client(stream, boundary_cuts(stream), at=t, close_after=ca, spaced=True, gaps=[3000000, 20000000, 150000000])
+        else:
+            S.client(stream, rand_cuts(rng, len(stream)), at=t, close_after=ca)
         t += rng.choice([0, 1000000, 200000000, 3000000000, 3000000000, 8000000000])
     S.P.do("top", "run")
     return S.text()
 
 
-def sc_cut(rng, sid, stream, cuts, keep, seed_cfg, second=True, spaced=False):
-    """the same network / tables for all cuts of one stream (seed_cfg), one client + a follower"""
+def sc_cut(rng, sid, stream, cuts, keep, seed_cfg, second=True, spaced=False, close=True, closer=None):
+    """the same network / tables for all cuts of one stream (seed_cfg), one client (closing at
+    1.5 s or never) + possibly a follower at 4 s"""
     r2 = random.Random(seed_cfg)
     S = Sc(r2, sid, keepalive=keep)
-    S.client(stream, cuts, at=0, cap=48, spaced=spaced, close_after=1500000000)
+    S.client(stream, cuts, at=0, cap=48, spaced=spaced, close_after=1500000000 if close else None, closer=closer)
     if second:
         S.client(req("/h"), [], at=4000000000, cap=48)
     S.P.do("top", "run")
     return S.text()
 
 
-def sc_stop(rng, sid):
-    S = Sc(rng, sid)
+STOP_TIMES = [0, 1000, 2000000, 5000000, 40000000, 700000000, 1000000000, 2500000000]
+
+
+def stop_and_after(S, rng):
+    """`w0.stop` at an event boundary or at a time; later a connect that must be refused, the
+    port must be free again (a plain acceptor or a new server with a served client on it)"""
     P = S.P
-    stream, kinds = pipeline(rng, allow_bad=False, partial_p=0.0)
-    S.client(stream, rand_cuts(rng, len(stream)), at=0, close_after=rng.choice([None, 600000000]))
-    if rng.random() < 0.5:
-        S.client(req("/h"), [], at=rng.choice([1000000, 900000000]))
-    # stop at an event boundary or at a time
-    if rng.random() < 0.6: sctx = "s%d" % rng.randrange(1, 60)
-    else: sctx = P.at(rng.choice([0, 1000, 2000000, 5000000, 40000000, 700000000]))
+    if rng.random() < 0.6:
+        # (a step hook beyond the last handler of the run never fires: monitor counter stop_in_run)
+        lo, hi = rng.choice([(1, 60)] * 10 + [(60, 120)] * 5 + [(120, 200)] * 3 + [(200, 400)] * 2)
+        sctx = "s%d" % rng.randrange(lo, hi)
+    else: sctx = P.at(rng.choice(STOP_TIMES))
     P.do(sctx, "w0.stop")
     if rng.random() < 0.3: P.do(sctx, "w0.stop")
-    # later: a connect that must be refused, the port must be free again
     late = P.at(rng.choice([3000000000, 9000000000]))
     s = P.sock(); P.do("top", "%s.new %s" % (s, rng.choice(S.others)[0]))
     P.do(late, "%s.connect %s:%d h%d" % (s, S.sip, S.port, P.h()))
@@ -231,6 +257,22 @@ def sc_stop(rng, sid):
     P.do("top", "run")
     if rng.random() < 0.3:
         P.do("top", "w0.stop")
+
+
+def sc_stop(rng, sid):
+    """stop() with anything going on: malformed requests, bad ranges, stalled paths, a truncated
+    last request, a lossy network, a second client that pipelines over several spaced writes"""
+    S = Sc(rng, sid, cfg=lossy_cfg(rng) if rng.random() < 0.15 else None)
+    stream, kinds = pipeline(rng, allow_stall=rng.random() < 0.3, bad_p=rng.choice([0.06, 0.15]), partial_p=0.15)
+    S.client(stream, rand_cuts(rng, len(stream)), at=0, close_after=rng.choice([None, 600000000]))
+    if rng.random() < 0.5:
+        at2 = rng.choice([1000000, 900000000])
+        if rng.random() < 0.5:
+            S.client(req("/h"), [], at=at2)
+        else:
+            s2, _ = pipeline(rng, allow_stall=rng.random() < 0.2)
+            S.client(s2, rand_cuts(rng, len(s2)), at=at2, spaced=True, gaps=[3000000, 20000000, 150000000])
+    stop_and_after(S, rng)
     return S.text()
 
 
@@ -242,17 +284,22 @@ def sc_reuse(rng, sid):
     stream = a + b
     cuts = [len(a)] + ([len(a) + rng.randrange(1, len(b))] if rng.random() < 0.5 else [])
     S.client(stream, cuts, at=0, spaced=rng.random() < 0.5)
-    S.client(req("/h") if rng.random() < 0.5 else pipeline(rng, allow_bad=False)[0], [], at=rng.choice([1000000000, 5000000000]), cap=48)
-    S.P.do("top", "run")
+    tail = rng.random() < 0.1            # stop() somewhere in this, second client at 1 s then
+    S.client(req("/h") if rng.random() < 0.5 else pipeline(rng, allow_bad=False)[0], [], at=rng.choice([1000000000, 1000000000 if tail else 5000000000]), cap=48)
+    if tail:
+        stop_and_after(S, rng)
+    else:
+        S.P.do("top", "run")
     return S.text()
 
 
+# (stream, keep-alive flag, what the server does with the connection once the stream is consumed)
 SHORT = [
-    (req("/h") + req("/nope", headers=[("Connection: ", "Close")]) + req("/h"), 1),
-    (req("/c", headers=[("Range: ", "bytes=10-19")]) + req("/r"), 1),
-    (req("/h") + req("/h"), 0),
-    (b"GET /h HTTP/1.1\r\nbad\r\n\r\n" + req("/h"), 1),
-    (req("/e") + req("/s") + req("/h"), 1),
+    (req("/h") + req("/nope", headers=[("Connection: ", "Close")]) + req("/h"), 1, "closed"),
+    (req("/c", headers=[("Range: ", "bytes=10-19")]) + req("/r"), 1, "open"),
+    (req("/h") + req("/h"), 0, "closed"),
+    (b"GET /h HTTP/1.1\r\nbad\r\n\r\n" + req("/h"), 1, "closed"),
+    (req("/e") + req("/s") + req("/h"), 1, "stalled"),
 ]
 
 
@@ -260,20 +307,31 @@ def generate(seed, tier, n=None):
     rng = random.Random(seed * 7368787 + 16)
     out = []
     quick = tier == "quick"
-    # exhaustive single cuts of short pipelines (every position, alternately back to back / spaced)
-    for pi, (stream, keep) in enumerate(SHORT):
+    # exhaustive single cuts of short pipelines (every position, alternately back to back / spaced).
+    # The cut client never closes where that is possible, so that the monitor demands every response
+    # and the end-of-file at every cut position; when the server closes by itself the follower is
+    # accepted behind it, otherwise a second variant has the client close to let the follower in
+    for pi, (stream, keep, end) in enumerate(SHORT):
         cseed = rng.randrange(1 << 30)
         for c in range(0, len(stream)):
-            out.append(sc_cut(rng, "x%d_%d" % (pi, c), stream, [c] if c else [], keep, cseed, spaced=(c % 2 == 1)))
-    # exhaustive pairs of cuts inside a window around the first request boundary
-    for k in range(1 if quick else len(SHORT)):
-        s2, k2 = SHORT[(seed + k) % len(SHORT)]
+            cuts = [c] if c else []
+            if end == "closed":
+                out.append(sc_cut(rng, "x%d_%d" % (pi, c), stream, cuts, keep, cseed, spaced=(c % 2 == 1), second=True, close=False))
+            else:
+                # (a destroyed client sends no end-of-file: the follower is then never let in)
+                out.append(sc_cut(rng, "x%d_%d" % (pi, c), stream, cuts, keep, cseed, spaced=(c % 2 == 1), second=True, close=True,
+                                  closer=("destroy" if c % 8 == 7 else "close") if end == "open" else None))
+                out.append(sc_cut(rng, "x%d_%do" % (pi, c), stream, cuts, keep, cseed, spaced=(c % 2 == 1), second=False, close=False))
+    # exhaustive pairs of cuts inside a window around the first request boundary, all streams
+    for k in range(len(SHORT)):
+        s2, k2, e2 = SHORT[(seed + k) % len(SHORT)]
         cseed = rng.randrange(1 << 30)
         b0 = s2.find(b"\r\n\r\n") + 4
-        w0 = max(1, b0 - (8 if quick else 14)); w1 = min(len(s2) - 1, b0 + (8 if quick else 14))
+        W = 4 if quick else 14
+        w0 = max(1, b0 - W); w1 = min(len(s2) - 1, b0 + W)
         for a in range(w0, w1):
             for b in range(a + 1, w1 + 1):
-                out.append(sc_cut(rng, "y%d_%d_%d" % (k, a, b), s2, [a, b], k2, cseed, second=False, spaced=((a + b) % 3 == 0)))
+                out.append(sc_cut(rng, "y%d_%d_%d" % (k, a, b), s2, [a, b], k2, cseed, second=(e2 == "closed"), spaced=((a + b) % 3 == 0), close=False))
     nr = n or (8000 if quick else 60000)
     for i in range(nr):
         x = rng.random()
